@@ -1,4 +1,5 @@
-(* PV.C16.ProofsText — the annotations file and the log across crashes without a torn write. *)
+(* PV.C16.ProofsText — the annotations file across ALL crashes (it is replaced atomically since commit ffb4c75)
+   and the log across crashes without a torn write. *)
 From Coq Require Import List Bool NArith Arith Lia.
 From PV Require Import C16.Model C16.Proofs C16.ProofsCodec C16.ProofsStore.
 Import ListNotations.
@@ -13,88 +14,93 @@ Definition annots (f : fs) : option str := read_node (lookup f annot_path).
 Definition ann_ok (name a : str) (f : fs) : Prop :=
   exists c, annots f = Some c /\ ends_nlb (translate c) = true /\ annot_retrieve c name = AFound a.
 
-(* operations that do not target the annotations file *)
-Definition not_annot (o : op) : bool :=
-  match wtarget o with Some p => negb (path_eqb p annot_path) | None => true end.
+(* every prefix state of an operation list satisfies R; with T = true also every state in which the
+   next operation was interrupted *)
+Fixpoint always (T : bool) (R : fs -> Prop) (ops : list op) (f : fs) : Prop :=
+  match ops with
+  | [] => True
+  | o :: tl => (T = true -> forall j, R (tear_op o j f)) /\ R (apply_op o f) /\ always T R tl (apply_op o f)
+  end.
 
-Lemma not_annot_frame o f : not_annot o = true -> lookup (apply_op o f) annot_path = lookup f annot_path.
-Proof.
-  intros H. apply apply_op_frame. unfold not_annot in H. destruct (wtarget o) as [p|]; [|discriminate].
-  intros [= ->]. rewrite path_eqb_refl in H. discriminate.
-Qed.
-
-(* every prefix state of an operation list satisfies R *)
-Fixpoint always (R : fs -> Prop) (ops : list op) (f : fs) : Prop :=
-  match ops with [] => True | o :: tl => R (apply_op o f) /\ always R tl (apply_op o f) end.
-
-Lemma always_app (R : fs -> Prop) a : forall b f, always R (a ++ b) f <-> always R a f /\ always R b (run_ops a f).
+Lemma always_app T (R : fs -> Prop) a : forall b f, always T R (a ++ b) f <-> always T R a f /\ always T R b (run_ops a f).
 Proof. induction a as [|o a IH]; intros b f; cbn [app always]; [cbn; tauto|]. rewrite IH, run_ops_cons. tauto. Qed.
 
-Lemma always_final (R : fs -> Prop) ops : forall f, R f -> always R ops f -> R (run_ops ops f).
+Lemma always_final T (R : fs -> Prop) ops : forall f, R f -> always T R ops f -> R (run_ops ops f).
 Proof. induction ops as [|o ops IH]; intros f H0 H; [exact H0|]. cbn in H. rewrite run_ops_cons. apply IH; tauto. Qed.
 
-Lemma always_crash (R : fs -> Prop) ops : forall f k, R f -> always R ops f -> R (crash f ops k None).
+Lemma always_crash (R : fs -> Prop) ops : forall f k, R f -> always false R ops f -> R (crash f ops k None).
 Proof.
   induction ops as [|o ops IH]; intros f k H0 H; [unfold crash; destruct k; exact H0|].
   destruct k as [|k]; [exact H0|]. cbn in H. change (R (crash (apply_op o f) ops k None)). apply IH; tauto.
 Qed.
 
-Lemma always_not_annot name a ops : forall f,
-  forallb not_annot ops = true -> ann_ok name a f -> always (ann_ok name a) ops f.
+Lemma always_crash_torn (R : fs -> Prop) ops : forall f k torn, R f -> always true R ops f -> R (crash f ops k torn).
 Proof.
-  induction ops as [|o ops IH]; intros f H H0; [exact I|]. cbn in H. apply andb_true_iff in H. destruct H as [Ho H].
-  assert (H1 : ann_ok name a (apply_op o f)).
-  { destruct H0 as [c [E1 E2]]. exists c. split; [|exact E2]. unfold annots in *. rewrite not_annot_frame by exact Ho. exact E1. }
-  cbn. split; [exact H1 | apply IH; assumption].
+  induction ops as [|o ops IH]; intros f k torn H0 H; [unfold crash; destruct k; cbn; destruct torn; exact H0|].
+  cbn in H. destruct H as [H1 [H2 H3]]. destruct k as [|k].
+  - unfold crash. cbn [firstn run_ops fold_left nth_error]. destruct torn as [j|]; [apply H1; reflexivity | exact H0].
+  - change (R (crash (apply_op o f) ops k torn)). apply IH; assumption.
 Qed.
 
+Lemma always_weaken T (R R' : fs -> Prop) ops : (forall f, R f -> R' f) -> forall f, always T R ops f -> always T R' ops f.
+Proof.
+  intros H. induction ops as [|o ops IH]; intros f Ha; [exact I|]. cbn in *. destruct Ha as [H1 [H2 H3]].
+  split; [intros E j; apply H, H1, E | split; [apply H, H2 | apply IH, H3]].
+Qed.
 
 (* ---- a tiny logic for "R holds in every prefix state" -------------------------------------- *)
-Definition keepsR (R : fs -> Prop) {A} (m : M A) : Prop := forall f, R f -> always R (fst (m f)) f.
+Definition keepsR (T : bool) (R : fs -> Prop) {A} (m : M A) : Prop := forall f, R f -> always T R (fst (m f)) f.
 
-Lemma keepsR_ret (R : fs -> Prop) {A} (a : A) : keepsR R (ret a).
+Lemma keepsR_ret T (R : fs -> Prop) {A} (a : A) : keepsR T R (ret a).
 Proof. intros f _. exact I. Qed.
-Lemma keepsR_fail (R : fs -> Prop) {A} e : keepsR R (@fail A e).
+Lemma keepsR_fail T (R : fs -> Prop) {A} e : keepsR T R (@fail A e).
 Proof. intros f _. exact I. Qed.
-Lemma keepsR_bind (R : fs -> Prop) {A B} (m : M A) (k : A -> M B) :
-  keepsR R m -> (forall a, keepsR R (k a)) -> keepsR R (bind m k).
+Lemma keepsR_bind T (R : fs -> Prop) {A B} (m : M A) (k : A -> M B) :
+  keepsR T R m -> (forall a, keepsR T R (k a)) -> keepsR T R (bind m k).
 Proof.
   intros Hm Hk f HR. unfold bind. specialize (Hm f HR). destruct (m f) as [ops r]. cbn [fst] in *.
   destruct r as [e|a]; cbn [fst]; [exact Hm|].
-  specialize (Hk a (run_ops ops f) (always_final R ops f HR Hm)).
+  specialize (Hk a (run_ops ops f) (always_final T R ops f HR Hm)).
   destruct (k a (run_ops ops f)) as [ops2 r2]. cbn [fst] in *. apply always_app. split; assumption.
 Qed.
-Lemma keepsR_get (R : fs -> Prop) {B} (k : fs -> M B) :
-  (forall f, R f -> always R (fst (k f f)) f) -> keepsR R (bind get k).
+Lemma keepsR_get T (R : fs -> Prop) {B} (k : fs -> M B) :
+  (forall f, R f -> always T R (fst (k f f)) f) -> keepsR T R (bind get k).
 Proof. intros H f HR. rewrite bind_get_eq. apply H. exact HR. Qed.
 
-(* operations that do not target path p *)
-Definition avoids_path (p : path) (o : op) : bool :=
-  match wtarget o with Some q => negb (path_eqb q p) | None => true end.
+(* operations that do not touch path p *)
+Definition not_path (p : path) (q : option path) : bool := match q with Some r => negb (path_eqb r p) | None => true end.
+Definition avoids_path (p : path) (o : op) : bool := not_path p (wtarget o) && not_path p (wsource o).
+
+Lemma not_path_spec p q : not_path p q = true -> q <> Some p.
+Proof. intros H ->. cbn in H. rewrite path_eqb_refl in H. discriminate. Qed.
 
 Lemma avoids_path_frame p o f : avoids_path p o = true -> lookup (apply_op o f) p = lookup f p.
 Proof.
-  intros H. apply apply_op_frame. unfold avoids_path in H. destruct (wtarget o) as [q|]; [|discriminate].
-  intros [= ->]. rewrite path_eqb_refl in H. discriminate.
+  intros H. apply andb_true_iff in H. destruct H as [H1 H2]. apply apply_op_frame; apply not_path_spec; assumption.
 Qed.
+Lemma avoids_path_tear p o j f : avoids_path p o = true -> lookup (tear_op o j f) p = lookup f p.
+Proof. intros H. apply andb_true_iff in H. destruct H as [H1 _]. apply tear_op_frame, not_path_spec, H1. Qed.
 
-(* R survives every operation that does not target p *)
-Definition stable (p : path) (R : fs -> Prop) : Prop := forall o f, avoids_path p o = true -> R f -> R (apply_op o f).
+(* R survives every operation, complete or interrupted, that does not touch p *)
+Definition stable (p : path) (R : fs -> Prop) : Prop :=
+  forall o f, avoids_path p o = true -> R f -> R (apply_op o f) /\ forall j, R (tear_op o j f).
 (* in particular when R depends on the node at p only *)
 Definition at_path (p : path) (R : fs -> Prop) : Prop := forall f g, lookup g p = lookup f p -> R f -> R g.
 Lemma at_path_stable p R : at_path p R -> stable p R.
-Proof. intros H o f Ho HR. eapply H; [apply avoids_path_frame; exact Ho | exact HR]. Qed.
-
-Lemma always_avoid p (R : fs -> Prop) : stable p R ->
-  forall ops f, R f -> forallb (avoids_path p) ops = true -> always R ops f.
 Proof.
-  intros HR. induction ops as [|o ops IH]; intros f H0 Hall; [exact I|]. cbn in Hall. apply andb_true_iff in Hall.
-  destruct Hall as [Ho Hall]. assert (H1 : R (apply_op o f)) by (apply HR; assumption).
-  cbn. split; [exact H1 | apply IH; assumption].
+  intros H o f Ho HR. split; [|intros j]; (eapply H; [|exact HR]); [apply avoids_path_frame | apply avoids_path_tear]; exact Ho.
 Qed.
 
-Lemma keepsR_avoid p (R : fs -> Prop) {A} (m : M A) : stable p R -> all_prog (avoids_path p) m -> keepsR R m.
-Proof. intros HR Hall f H0. apply (always_avoid p R HR); [exact H0 | apply Hall]. Qed.
+Lemma always_avoid T p (R : fs -> Prop) : stable p R ->
+  forall ops f, R f -> forallb (avoids_path p) ops = true -> always T R ops f.
+Proof.
+  intros HR. induction ops as [|o ops IH]; intros f H0 Hall; [exact I|]. cbn in Hall. apply andb_true_iff in Hall.
+  destruct Hall as [Ho Hall]. destruct (HR o f Ho H0) as [H1 H2].
+  cbn. split; [intros _; exact H2 | split; [exact H1 | apply IH; assumption]].
+Qed.
+
+Lemma keepsR_avoid T p (R : fs -> Prop) {A} (m : M A) : stable p R -> all_prog (avoids_path p) m -> keepsR T R m.
+Proof. intros HR Hall f H0. apply (always_avoid T p R HR); [exact H0 | apply Hall]. Qed.
 
 (* ---- static facts: which programs leave the annotations file / the log alone ---------------- *)
 Ltac av_tac S :=
@@ -102,6 +108,7 @@ Ltac av_tac S :=
     [ apply all_mkdir_p; reflexivity | apply all_mkdir1; reflexivity | apply all_touch; reflexivity
     | apply all_lock; reflexivity | apply all_write_file; reflexivity | apply all_append_file; reflexivity
     | apply all_read_file; reflexivity | apply all_touch_excl; reflexivity | apply all_remove_file; reflexivity
+    | apply all_rename_file; reflexivity
     | match goal with
       | |- all_prog S (bind _ _) => apply all_bind; [|intro]
       | |- all_prog S (ret _) => apply all_ret
@@ -123,7 +130,7 @@ Section AvoidTop.
   Lemma av_transaction {A} K (body : M A) : all_prog S body -> all_prog S (transaction K body).
   Proof. intros H. unfold S in *. both; unfold transaction; av_tac (avoids_path annot_path); av_tac (avoids_path log_path); exact H. Qed.
   Lemma av_store_model_entry m : all_prog S (store_model_entry m).
-  Proof. unfold S. both; unfold store_model_entry, store_model, store_modelfit_results; av_tac (avoids_path annot_path); av_tac (avoids_path log_path). Qed.
+  Proof. unfold S. both; unfold store_model_entry, store_model, store_modelfit_results, store_dataset; cbv zeta; av_tac (avoids_path annot_path); av_tac (avoids_path log_path). Qed.
   Lemma av_metadata K id : all_prog S (db_store_metadata K id).
   Proof. unfold db_store_metadata. apply av_transaction. unfold S. both; av_tac (avoids_path annot_path); av_tac (avoids_path log_path). Qed.
   Lemma av_store_key name K : all_prog S (store_key name K).
@@ -159,11 +166,11 @@ Lemma av_log_store_annotation name a : all_prog (avoids_path log_path) (store_an
 Proof. unfold store_annotation. av_tac (avoids_path log_path). Qed.
 
 (* LocalDirectoryContext.__init__ leaves an existing file at p (annotations or log) alone *)
-Lemma ctx_init_keeps p (R : fs -> Prop) :
-  p = annot_path \/ p = log_path -> stable p R -> (forall f, R f -> is_file f p = true) -> keepsR R ctx_init.
+Lemma ctx_init_keeps T p (R : fs -> Prop) :
+  p = annot_path \/ p = log_path -> stable p R -> (forall f, R f -> is_file f p = true) -> keepsR T R ctx_init.
 Proof.
   intros Hp HR Hfile. unfold ctx_init.
-  assert (Hav : forall A (m : M A), all_prog (avoids_path p) m -> keepsR R m) by (intros; eapply keepsR_avoid; eassumption).
+  assert (Hav : forall A (m : M A), all_prog (avoids_path p) m -> keepsR T R m) by (intros; eapply keepsR_avoid; eassumption).
   apply keepsR_bind; [apply Hav; apply all_get | intro f1].
   apply keepsR_bind; [apply Hav; destruct Hp as [-> | ->]; av_tac (avoids_path annot_path); av_tac (avoids_path log_path) | intro].
   apply keepsR_bind; [apply Hav; apply all_get | intro f2].
@@ -171,7 +178,7 @@ Proof.
   apply keepsR_bind; [apply Hav; destruct Hp as [-> | ->]; av_tac (avoids_path annot_path); av_tac (avoids_path log_path) | intro].
   destruct Hp as [-> | ->].
   - apply keepsR_get. intros f HRf. rewrite (Hfile f HRf).
-    assert (Hrest : keepsR R (ret tt;; mkdir1 models_dir true;; f0 <- get;;
+    assert (Hrest : keepsR T R (ret tt;; mkdir1 models_dir true;; f0 <- get;;
                               (if is_file f0 log_path then ret tt else write_file log_path log_header);; f3 <- get;;
                               (if is_file f3 common_path then ret tt else write_file common_path common_content))).
     { apply Hav. av_tac (avoids_path annot_path). }
@@ -180,19 +187,19 @@ Proof.
     apply keepsR_bind; [apply Hav; av_tac (avoids_path log_path) | intro].
     apply keepsR_bind; [apply Hav; av_tac (avoids_path log_path) | intro].
     apply keepsR_get. intros f HRf. rewrite (Hfile f HRf).
-    assert (Hrest : keepsR R (ret tt;; f3 <- get;;
+    assert (Hrest : keepsR T R (ret tt;; f3 <- get;;
                               (if is_file f3 common_path then ret tt else write_file common_path common_content))).
     { apply Hav. av_tac (avoids_path log_path). }
     apply Hrest. exact HRf.
 Qed.
 
-(* ---- annotations of other names survive every crash without a torn write -------------------- *)
-(* guard on a workload item: it does not (re)write the annotation of [name], and what it writes is in
-   the domain of the codec *)
+(* ---- annotations of other names survive EVERY crash, torn or not ---------------------------- *)
+(* guard on a workload item: it does not (re)write the annotation of [name], and the name it writes for
+   is in the domain of the codec *)
 Definition item_ann_ok (name : str) (i : witem) : bool :=
   match i with
-  | WStore m => negb (str_eqb (m_name m) name) && name_ok (m_name m) && no_nl (m_desc m)
-  | WAnnot n a => negb (str_eqb n name) && name_ok n && no_nl a
+  | WStore m => negb (str_eqb (m_name m) name) && name_ok (m_name m)
+  | WAnnot n a => negb (str_eqb n name) && name_ok n
   | _ => true
   end.
 
@@ -205,41 +212,63 @@ Proof.
 Qed.
 
 Lemma keeps_store_annotation name a n a' :
-  n <> name -> name_ok n = true -> no_nl a' = true -> keepsR (ann_ok name a) (store_annotation n a').
+  n <> name -> name_ok n = true -> keepsR true (ann_ok name a) (store_annotation n a').
 Proof.
-  intros Hne Hn Ha. unfold store_annotation.
+  intros Hne Hn. unfold store_annotation.
   apply keepsR_bind; [eapply keepsR_avoid; [apply at_path_stable, at_path_ann_ok | apply all_lock; reflexivity] | intro].
-  intros f HR. destruct HR as [c [Hc [Hwf Hret]]].
-  assert (Hops : fst ((c0 <- read_file annot_path;; write_file annot_path (annot_store c0 n a')) f)
-                 = [OpenR annot_path; OpenW annot_path (annot_store c n a')]).
+  intros f HR. pose proof HR as HR0. destruct HR as [c [Hc [Hwf Hret]]].
+  set (X := annot_store c n a').
+  assert (Hops : exists tl, fst ((c0 <- read_file annot_path;; write_file annot_tmp (annot_store c0 n a');; rename_file annot_tmp annot_path) f)
+                 = OpenR annot_path :: OpenW annot_tmp X :: tl
+                 /\ (tl = [] \/ tl = [Rename annot_tmp annot_path])).
   { unfold bind. rewrite read_file_eq. unfold annots in Hc. rewrite Hc. cbn [fst snd].
-    change (run_ops [OpenR annot_path] f) with f. rewrite write_file_eq. reflexivity. }
-  rewrite Hops. cbn [always]. change (apply_op (OpenR annot_path) f) with f.
-  assert (HR0 : ann_ok name a f) by (exists c; auto).
-  split; [exact HR0|]. split; [|exact I].
-  cbn [apply_op]. destruct (can_write f annot_path); [|exact HR0].
-  exists (annot_store c n a'). split; [unfold annots; rewrite lookup_set_same; reflexivity|].
-  split; [apply annotation_wf_preserved_lemma; assumption|].
-  rewrite annotation_others_lemma by (try assumption; congruence). exact Hret.
+    change (run_ops [OpenR annot_path] f) with f. rewrite write_file_eq. fold X.
+    destruct (can_write f annot_tmp); cbn [fst snd]; [|exists []; auto].
+    rewrite rename_file_eq. exists [Rename annot_tmp annot_path]. cbn. auto. }
+  destruct Hops as [tl [Hops Htl]]. rewrite Hops.
+  assert (Hst : stable annot_path (ann_ok name a)) by apply at_path_stable, at_path_ann_ok.
+  destruct (Hst (OpenW annot_tmp X) f eq_refl HR0) as [H1 H2].
+  cbn [always]. change (apply_op (OpenR annot_path) f) with f.
+  split; [intros _ j; exact HR0|]. split; [exact HR0|]. split; [intros _; exact H2|]. split; [exact H1|].
+  destruct Htl as [-> | ->]; [exact I|]. cbn [always tear_op]. split; [intros _ j; exact H1|]. split; [|exact I].
+  (* the atomic replacement: the new content is the old one with the line of n rewritten *)
+  set (fb := apply_op (OpenW annot_tmp X) f) in *. cbn [apply_op].
+  destruct (lookup fb annot_tmp) as [[|cc|cc|]|] eqn:Et; try exact H1; (destruct (can_write fb annot_path); [|exact H1]).
+  - assert (Ecc : cc = X).
+    { unfold fb in Et. cbn [apply_op] in Et. destruct (can_write f annot_tmp) eqn:Ecw.
+      - rewrite lookup_set_same in Et. congruence.
+      - (* the write did not happen: impossible here, the rename is only emitted after a successful write *)
+        exfalso. clear -Hops Ecw Hc. unfold bind in Hops. rewrite read_file_eq in Hops. unfold annots in Hc. rewrite Hc in Hops.
+        cbn [fst snd] in Hops. change (run_ops [OpenR annot_path] f) with f in Hops. rewrite write_file_eq, Ecw in Hops.
+        cbn in Hops. discriminate. }
+    subst cc. exists X. split; [unfold annots; rewrite lookup_set_same; reflexivity|].
+    split; [apply annotation_wf_preserved_lemma; assumption|].
+    unfold X. rewrite annotation_others_lemma by (try assumption; congruence). exact Hret.
+  - (* a torn temp file cannot be there: it was just written completely *)
+    exfalso. unfold fb in Et. cbn [apply_op] in Et. destruct (can_write f annot_tmp) eqn:Ecw.
+    + rewrite lookup_set_same in Et. discriminate.
+    + clear -Hops Ecw Hc. unfold bind in Hops. rewrite read_file_eq in Hops. unfold annots in Hc. rewrite Hc in Hops.
+      cbn [fst snd] in Hops. change (run_ops [OpenR annot_path] f) with f in Hops. rewrite write_file_eq, Ecw in Hops.
+      cbn in Hops. discriminate.
 Qed.
 
-Lemma keeps_item_ann name a i : item_ann_ok name i = true -> keepsR (ann_ok name a) (item_prog i).
+Lemma keeps_item_ann name a i : item_ann_ok name i = true -> keepsR true (ann_ok name a) (item_prog i).
 Proof.
   intros Hg.
-  assert (Hav : forall A (m : M A), all_prog (avoids_path annot_path) m -> keepsR (ann_ok name a) m).
+  assert (Hav : forall A (m : M A), all_prog (avoids_path annot_path) m -> keepsR true (ann_ok name a) m).
   { intros. eapply keepsR_avoid; [apply at_path_stable, at_path_ann_ok | assumption]. }
   assert (Hp : annot_path = annot_path \/ annot_path = log_path) by (left; reflexivity).
   destruct i; cbn [item_prog item_ann_ok] in *.
-  - apply (ctx_init_keeps annot_path); [exact Hp | apply at_path_stable, at_path_ann_ok | apply ann_ok_is_file].
-  - apply andb_true_iff in Hg. destruct Hg as [Hg H3]. apply andb_true_iff in Hg. destruct Hg as [H1 H2].
+  - apply (ctx_init_keeps true annot_path); [exact Hp | apply at_path_stable, at_path_ann_ok | apply ann_ok_is_file].
+  - apply andb_true_iff in Hg. destruct Hg as [H1 H2].
     apply negb_true_iff in H1. unfold ctx_store.
     apply keepsR_bind; [apply Hav, (av_transaction _ Hp), (av_store_model_entry _ Hp) | intro].
     apply keepsR_bind; [apply Hav, (av_store_key _ Hp) | intro].
-    apply keeps_store_annotation; [|assumption|assumption]. intros E. rewrite E, str_eqb_refl in H1. discriminate.
+    apply keeps_store_annotation; [|assumption]. intros E. rewrite E, str_eqb_refl in H1. discriminate.
   - apply Hav. unfold db_store_model_entry. apply (av_transaction _ Hp), (av_store_model_entry _ Hp).
   - apply Hav, (av_metadata _ Hp).
-  - apply andb_true_iff in Hg. destruct Hg as [Hg H3]. apply andb_true_iff in Hg. destruct Hg as [H1 H2].
-    apply negb_true_iff in H1. apply keeps_store_annotation; [|assumption|assumption].
+  - apply andb_true_iff in Hg. destruct Hg as [H1 H2].
+    apply negb_true_iff in H1. apply keeps_store_annotation; [|assumption].
     intros E. rewrite E, str_eqb_refl in H1. discriminate.
   - apply Hav, av_annot_store_message.
   - apply Hav, (av_forget annot_path), (av_ctx_retrieve _ Hp).
@@ -249,17 +278,20 @@ Proof.
 Qed.
 
 Lemma trace_ann name a w : forall f0,
-  forallb (item_ann_ok name) w = true -> ann_ok name a f0 -> always (ann_ok name a) (trace w f0) f0.
+  forallb (item_ann_ok name) w = true -> ann_ok name a f0 -> always true (ann_ok name a) (trace w f0) f0.
 Proof.
   induction w as [|i w IH]; intros f0 Hg H0; [exact I|]. cbn in Hg. apply andb_true_iff in Hg. destruct Hg as [Hi Hg].
   cbn [trace]. apply always_app. pose proof (keeps_item_ann name a i Hi f0 H0) as H1. split; [exact H1|].
-  apply IH; [exact Hg | apply always_final; assumption].
+  apply IH; [exact Hg | eapply always_final; eassumption].
 Qed.
 
 Lemma annotations_survive_lemma :
-  forall (f0 : fs) (w : list witem) (k : nat) (name a : str),
-    forallb (item_ann_ok name) w = true -> ann_ok name a f0 -> ann_ok name a (crash_w f0 w k None).
-Proof. intros f0 w k name a Hg H0. unfold crash_w. apply (always_crash (ann_ok name a)); [exact H0 | apply trace_ann; assumption]. Qed.
+  forall (f0 : fs) (w : list witem) (k : nat) (torn : option nat) (name a : str),
+    forallb (item_ann_ok name) w = true -> ann_ok name a f0 -> ann_ok name a (crash_w f0 w k torn).
+Proof.
+  intros f0 w k torn name a Hg H0. unfold crash_w.
+  apply (always_crash_torn (ann_ok name a)); [exact H0 | apply trace_ann; assumption].
+Qed.
 
 (* ---- the log across crashes without a torn write -------------------------------------------- *)
 Definition row := (str * str * str * str)%type.
@@ -274,20 +306,26 @@ Definition item_log_ok (i : witem) : bool :=
 Lemma log_file_app rows p d s m : log_file (rows ++ [(p, d, s, m)]) = log_file rows ++ log_line p d s m.
 Proof. unfold log_file. rewrite map_app, concat_app. cbn [map concat]. rewrite app_nil_r, app_assoc. reflexivity. Qed.
 
-Lemma log_state_frame rows f g :
-  lookup g log_path = lookup f log_path -> (is_dir f [] = true -> is_dir g [] = true) -> log_state rows f -> log_state rows g.
-Proof. intros E Hd [H1 [H2 H3]]. split; [rewrite E; exact H1 | split; [exact H2 | apply Hd; exact H3]]. Qed.
+Lemma is_dir_tear o j f q : is_dir f q = true -> is_dir (tear_op o j f) q = true.
+Proof.
+  intros H. apply is_dir_lookup in H. apply is_dir_lookup.
+  destruct (wtarget o) as [p|] eqn:Ht; [|rewrite tear_op_frame by congruence; exact H].
+  destruct (path_eq_dec p q) as [-> | Hne]; [|rewrite tear_op_frame by congruence; exact H].
+  destruct o; cbn [wtarget] in Ht; try discriminate; injection Ht as ->; cbn [tear_op]; try exact H;
+    unfold can_write; rewrite H; exact H.
+Qed.
 
 Lemma stable_log_state rows : stable log_path (log_state rows).
 Proof.
-  intros o f Ho H0. eapply log_state_frame; [apply avoids_path_frame; exact Ho | apply is_dir_mono | exact H0].
+  intros o f Ho [H1 [H2 H3]]. split; [|intros j]; (split; [|split; [exact H2|]]).
+  - rewrite avoids_path_frame by exact Ho. exact H1.
+  - apply is_dir_mono. exact H3.
+  - rewrite avoids_path_tear by exact Ho. exact H1.
+  - apply is_dir_tear. exact H3.
 Qed.
 
-Lemma keepsR_avoid_log rows {A} (m : M A) : all_prog (avoids_path log_path) m -> keepsR (log_state rows) m.
+Lemma keepsR_avoid_log rows {A} (m : M A) : all_prog (avoids_path log_path) m -> keepsR false (log_state rows) m.
 Proof. apply keepsR_avoid, stable_log_state. Qed.
-
-Lemma always_weaken (R R' : fs -> Prop) ops : (forall f, R f -> R' f) -> forall f, always R ops f -> always R' ops f.
-Proof. intros H. induction ops as [|o ops IH]; intros f Ha; [exact I|]. cbn in *. split; [apply H | apply IH]; tauto. Qed.
 
 Lemma append_file_eq p c f :
   append_file p c f = ([OpenA p c], if can_write f p then inr tt else inl EFileNotFound).
@@ -296,19 +334,19 @@ Proof. unfold append_file. rewrite bind_get_eq, bind_emit_eq. destruct (can_writ
 (* one item: during it the log holds the old records or the old records plus the item's own; afterwards the latter *)
 Lemma item_log i rows f :
   item_log_ok i = true -> log_state rows f ->
-  always (fun g => log_state rows g \/ log_state (rows ++ log_rows [i]) g) (item_ops i f) f
+  always false (fun g => log_state rows g \/ log_state (rows ++ log_rows [i]) g) (item_ops i f) f
   /\ log_state (rows ++ log_rows [i]) (run_ops (item_ops i f) f).
 Proof.
   intros Hg H0. unfold item_ops.
   assert (Hp : log_path = annot_path \/ log_path = log_path) by (right; reflexivity).
-  assert (Hquiet : forall m : M unit, keepsR (log_state rows) m ->
-            always (fun g => log_state rows g \/ log_state (rows ++ []) g) (fst (m f)) f
+  assert (Hquiet : forall m : M unit, keepsR false (log_state rows) m ->
+            always false (fun g => log_state rows g \/ log_state (rows ++ []) g) (fst (m f)) f
             /\ log_state (rows ++ []) (run_ops (fst (m f)) f)).
   { intros m Hk. rewrite app_nil_r. split.
     - eapply always_weaken; [|apply Hk; exact H0]. intros g Hg'. left. exact Hg'.
-    - apply always_final; [exact H0 | apply Hk; exact H0]. }
+    - eapply always_final; [exact H0 | apply Hk; exact H0]. }
   destruct i; cbn [item_prog log_rows flat_map app]; try (apply Hquiet).
-  - apply (ctx_init_keeps log_path); [exact Hp | apply stable_log_state|].
+  - apply (ctx_init_keeps false log_path); [exact Hp | apply stable_log_state|].
     intros f1 [H1 _]. unfold is_file. rewrite H1. reflexivity.
   - apply keepsR_avoid_log. unfold ctx_store.
     apply all_bind; [apply (av_transaction _ Hp), (av_store_model_entry _ Hp) | intro].
@@ -320,20 +358,19 @@ Proof.
     cbn [item_log_ok] in Hg. unfold store_message.
     assert (Hlock : all_prog (avoids_path log_path) (lock log_lock)) by (apply all_lock; reflexivity).
     pose proof (keepsR_avoid_log rows _ Hlock f H0) as Hal.
-    pose proof (always_final _ _ _ H0 Hal) as H1. set (f1 := run_ops (fst (lock log_lock f)) f) in *.
+    pose proof (always_final _ _ _ _ H0 Hal) as H1. set (f1 := run_ops (fst (lock log_lock f)) f) in *.
     destruct H1 as [E1 [E2 E3]].
     assert (Hcw : can_write f1 log_path = true).
     { unfold can_write. rewrite E1. exact E3. }
     assert (Hops : fst ((lock log_lock;; append_file log_path (log_line ctxpath date sev msg)) f)
-                   = fst (lock log_lock f) ++ [OpenA log_path (log_line ctxpath date sev msg)]
-                   /\ snd (lock log_lock f) = snd (lock log_lock f)).
-    { split; [|reflexivity]. unfold bind.
+                   = fst (lock log_lock f) ++ [OpenA log_path (log_line ctxpath date sev msg)]).
+    { unfold bind.
       assert (Hr : exists u, snd (lock log_lock f) = inr u).
       { rewrite lock_eq, touch_eq. destruct (exists_ f log_lock); [eexists; reflexivity|].
         replace (parent_ok f log_lock) with (is_dir f []) by reflexivity. destruct H0 as [_ [_ H0]]. rewrite H0. eexists. reflexivity. }
       destruct Hr as [u Hr]. destruct (lock log_lock f) as [ops r]. cbn [fst snd] in *. subst r. fold f1.
       rewrite append_file_eq. reflexivity. }
-    destruct Hops as [Hops _]. rewrite Hops.
+    rewrite Hops.
     assert (Hfin : log_state (rows ++ [(ctxpath, date, sev, msg)]) (apply_op (OpenA log_path (log_line ctxpath date sev msg)) f1)).
     { cbn [apply_op]. rewrite Hcw, E1. split; [|split].
       - rewrite lookup_set_same, log_file_app. reflexivity.
@@ -342,7 +379,7 @@ Proof.
     split.
     + apply always_app. split.
       * eapply always_weaken; [|exact Hal]. intros g Hg'. left. exact Hg'.
-      * fold f1. cbn [always]. split; [right; exact Hfin | exact I].
+      * fold f1. cbn [always]. split; [discriminate|]. split; [right; exact Hfin | exact I].
     + rewrite run_ops_app. fold f1. exact Hfin.
   - apply keepsR_avoid_log, (av_forget log_path), (av_ctx_retrieve _ Hp).
   - apply keepsR_avoid_log, (av_forget log_path), (av_snapshot _ Hp), (av_read_model _ Hp).
@@ -350,8 +387,8 @@ Proof.
   - apply keepsR_avoid_log, (av_forget log_path), (av_retrieve_log _ Hp).
 Qed.
 
-Lemma crash_app_le a b f k : k <= length a -> (k < length a \/ b = []) -> crash f (a ++ b) k None = crash f a k None.
-Proof. intros H _. unfold crash. rewrite firstn_app. replace (k - length a) with 0 by lia. cbn. rewrite app_nil_r. reflexivity. Qed.
+Lemma crash_app_le a b f k : k <= length a -> crash f (a ++ b) k None = crash f a k None.
+Proof. intros H. unfold crash. rewrite firstn_app. replace (k - length a) with 0 by lia. cbn. rewrite app_nil_r. reflexivity. Qed.
 
 Lemma crash_app_ge a b f k : length a <= k -> crash f (a ++ b) k None = crash (run_ops a f) b (k - length a) None.
 Proof.
